@@ -1,6 +1,8 @@
-"""x_emit — classify every source of run-to-run variation in the four generator plugins (property C16, PARTIAL).
+"""x_emit — classify every source of run-to-run variation in the generator and its four plugins (property C16, PARTIAL).
 
-Reads (AST only): generator/plugins/{python,rust,dotnet,testdata}/*.py
+Reads (AST only): generator/plugins/{python,rust,dotnet,testdata}/*.py and generator/*.py (model.py, __main__.py: the same
+                  set / random / listing scan, no ownership analysis); module-level state of all of generator/ via
+                  lib/emit_modstate.py (classes SModConst / SMemoPure / SModState, see there for the decision procedure)
 Emits:            <out.v>    Gen.EmitData: `sites : list site`, `plugins : list plugin` (types of LSP.Emit)
                   <out.json> the same with the reasoning chain per site
 
@@ -16,7 +18,10 @@ plugin) and through arguments of plugin functions (all uses of the parameter), d
         SMember      only `x in S` tests                 SSize   only len()/truth value/any/all/sum
         SKeyOnly     id used as dict key / `in` on a dict / == comparison      SErrorOnly   only inside raise / logging
         SValuesOnly  .values() of the id-keyed dict      SDeleteOnly / SKeyedWrite   listing only deleted / one write per item
+        SIdSource    a uuid/random value that is only stored as the `id_` field of a model object (its reads are sites themselves)
         SExposed     anything else (fail-closed): iteration order or value may reach the output
+        SModConst / SMemoPure / SModState   module-level state (emit_modstate): constant after import / pure memo / changed by a
+                     function (NOT covered: the output may depend on what the process generated before)
 Plugins: the function exported as `generate` of each plugin: does it call a cleanup (a loop that only unlinks <dir>.glob(PAT))
 before its first write, are the written names fixed string constants, do all written names match the cleaned pattern.
 usage: x_emit.py <out.v> <out.json>
@@ -26,11 +31,12 @@ import json
 import os
 import sys
 
+import emit_modstate
 from vcommon import REPO, q, write_if_changed
 
 PLUGROOT = os.path.join(REPO, "generator", "plugins")
 PLUGINS = ["python", "rust", "dotnet", "testdata"]
-ORDER = {"SExposed": 0, "SSorted": 1, "SKeyedWrite": 2, "SDeleteOnly": 3, "SValuesOnly": 4, "SMember": 5, "SSize": 6, "SKeyOnly": 7, "SErrorOnly": 8}
+ORDER = {"SExposed": 0, "SModState": 0, "SModConst": 9, "SMemoPure": 9, "SIdSource": 9, "SSorted": 1, "SKeyedWrite": 2, "SDeleteOnly": 3, "SValuesOnly": 4, "SMember": 5, "SSize": 6, "SKeyOnly": 7, "SErrorOnly": 8}
 TRANSPARENT = {"list", "tuple", "iter", "enumerate", "reversed", "set", "frozenset", "filter", "map", "zip", "chain"}
 AGG = {"len", "any", "all", "sum", "bool"}
 SORTERS = {"sorted", "min", "max"}
@@ -65,9 +71,10 @@ def weakest(classes):
 
 
 class Plugin:
-    def __init__(self, name):
+    def __init__(self, name, directory=None):
         self.name = name
-        self.dir = os.path.join(PLUGROOT, name)
+        self.dir = directory or os.path.join(PLUGROOT, name)
+        self.rel = os.path.relpath(self.dir, REPO).replace(os.sep, "/")
         self.mods = {}
         self.funcs = {}        # simple name -> [FunctionDef]
         for fn in sorted(os.listdir(self.dir)):
@@ -77,8 +84,8 @@ class Plugin:
                 for n in ast.walk(tree):
                     for ch in ast.iter_child_nodes(n):
                         ch._parent = n
-                        ch._file = name + "/" + fn
-                tree._file = name + "/" + fn
+                        ch._file = self.rel + "/" + fn
+                tree._file = self.rel + "/" + fn
                 self.mods[fn] = tree
                 for n in ast.walk(tree):
                     if isinstance(n, (ast.FunctionDef, ast.AsyncFunctionDef)):
@@ -237,6 +244,42 @@ class Plugin:
         return (w[0], "returned from %s() (%d call sites): %s" % (fn.name, len(sites), w[1]))
 
     # ---- ids
+    def id_source(self, node):
+        """a random value whose only destination is the `id_` field of a model object: follows str()/format wrappers, a lambda
+        body, the converter=/factory=/default= keyword of a field declaration, up to `id_ = ...` / `x.id_ = ...`"""
+        n = node
+        for _ in range(8):
+            p = getattr(n, "_parent", None)
+            if p is None:
+                return None
+            if isinstance(p, ast.Call) and any(a is n for a in p.args) and isinstance(p.func, ast.Name) and p.func.id in ("str", "repr", "format"):
+                n = p
+            elif isinstance(p, ast.Attribute) and p.value is n and p.attr in ("hex", "urn", "int"):
+                n = p
+            elif isinstance(p, (ast.FormattedValue, ast.JoinedStr)):
+                n = p
+            elif isinstance(p, ast.Lambda) and p.body is n:
+                n = p
+            elif isinstance(p, ast.keyword) and p.arg in ("converter", "factory", "default", "default_factory"):
+                n = p._parent
+            elif isinstance(p, ast.Call) and p.func is n and isinstance(n, ast.Attribute):
+                n = p
+            elif isinstance(p, (ast.Assign, ast.AnnAssign)) and p.value is n:
+                tgs = p.targets if isinstance(p, ast.Assign) else [p.target]
+                names = [t.id if isinstance(t, ast.Name) else (t.attr if isinstance(t, ast.Attribute) else None) for t in tgs]
+                if names and all(x == "id_" for x in names):
+                    return ("SIdSource", "stored only as the id_ field (line %d)" % p.lineno)
+                return None
+            elif isinstance(p, ast.Return):
+                fn = self.enclosing(p, (ast.FunctionDef, ast.Lambda))
+                if isinstance(fn, ast.Lambda):
+                    n = fn
+                else:
+                    return None
+            else:
+                return None
+        return None
+
     def id_consumer(self, node):
         why = self.in_raise_or_log(node)
         if why:
@@ -260,7 +303,7 @@ class Plugin:
         sites = []
         id_dicts = set()
         for fn, tree in self.mods.items():
-            f = self.name + "/" + fn
+            f = self.rel + "/" + fn
             for n in ast.walk(tree):
                 # sets
                 if (isinstance(n, ast.Call) and isinstance(n.func, ast.Name) and n.func.id in ("set", "frozenset")) or isinstance(n, (ast.Set, ast.SetComp)):
@@ -285,7 +328,7 @@ class Plugin:
                     if (parts[0] in RANDOM_CALLS and len(parts) > 1) or (len(parts) == 1 and parts[0] in ("id", "hash")) or \
                             (len(parts) > 1 and parts[-1] in RANDOM_FUNCS and parts[0] in ("os", "time", "datetime", "uuid", "random", "secrets")) or \
                             (len(parts) > 2 and parts[0] == "datetime" and parts[-1] in RANDOM_FUNCS):
-                        c = self.id_consumer(n)
+                        c = self.id_source(n) or self.id_consumer(n)
                         sites.append({"file": f, "line": n.lineno, "what": ast.unparse(n)[:70], "kind": "random", "class": c[0], "why": c[1]})
                     # directory listings
                     last = parts[-1] if d else (n.func.attr if isinstance(n.func, ast.Attribute) else "")
@@ -299,7 +342,7 @@ class Plugin:
             for n in ast.walk(tree):
                 if isinstance(n, ast.Attribute) and dotted(n) == d and isinstance(n.ctx, ast.Load):
                     p = n._parent
-                    f = self.name + "/" + fn
+                    f = self.rel + "/" + fn
                     if isinstance(p, ast.Subscript) and p.value is n:
                         continue
                     if isinstance(p, ast.Compare) and any(c is n for c in p.comparators):
@@ -320,8 +363,20 @@ class Plugin:
 
     def listing(self, n):
         p = n._parent
+        if isinstance(p, ast.Call) and isinstance(p.func, ast.Name) and p.func.id in ("list", "tuple", "iter") and len(p.args) == 1 \
+                and isinstance(getattr(p, "_parent", None), (ast.For, ast.comprehension)) and p._parent.iter is p:
+            n, p = p, p._parent                 # for x in list(d.glob(...)): same as iterating the listing
         if isinstance(p, ast.Call) and isinstance(p.func, ast.Name) and p.func.id in SORTERS:
+            gp = getattr(p, "_parent", None)
+            if isinstance(gp, ast.For) and gp.iter is p and self.loop_only_deletes(gp):
+                return ("SDeleteOnly", "loop at line %d only deletes the (sorted) listed files" % gp.lineno)
             return ("SSorted", "sorted(...) at line %d" % p.lineno)
+        if isinstance(p, ast.comprehension) and p.iter is n and isinstance(p.target, ast.Name) and not p.ifs:
+            comp = p._parent
+            elt = getattr(comp, "elt", None)
+            if isinstance(elt, ast.Call) and isinstance(elt.func, ast.Attribute) and elt.func.attr in DELETERS and len(comp.generators) == 1 \
+                    and (dotted(elt.func.value) == p.target.id or (elt.args and dotted(elt.args[0]) == p.target.id)):
+                return ("SDeleteOnly", "comprehension at line %d only deletes the listed files" % comp.lineno)
         if isinstance(p, ast.Call) and isinstance(p.func, ast.Name) and p.func.id in AGG:
             return ("SSize", "%s() at line %d" % (p.func.id, p.lineno))
         if isinstance(p, ast.For) and p.iter is n and isinstance(p.target, ast.Name) and not p.orelse:
@@ -351,6 +406,20 @@ class Plugin:
             return ("SExposed", "loop at line %d over a directory listing" % p.lineno)
         return ("SExposed", "directory listing consumed by %s at line %d" % (type(p).__name__, n.lineno))
 
+    def loop_only_deletes(self, p):
+        if not (isinstance(p.target, ast.Name) and not p.orelse):
+            return False
+        var = p.target.id
+        for st in p.body:
+            if isinstance(st, ast.Expr) and isinstance(st.value, ast.Constant):
+                continue
+            if not (isinstance(st, ast.Expr) and isinstance(st.value, ast.Call) and isinstance(st.value.func, ast.Attribute)):
+                return False
+            c = st.value
+            if not (c.func.attr in DELETERS and (dotted(c.func.value) == var or (c.args and dotted(c.args[0]) == var))):
+                return False
+        return True
+
     # ---- ownership
     def str_suffixes(self, e, fn, depth=0):
         """(list of (is_constant, suffix)) for the possible values of a file-name expression"""
@@ -364,10 +433,21 @@ class Plugin:
             for n in ast.walk(fn):
                 if isinstance(n, ast.Assign) and any(isinstance(t, ast.Name) and t.id == e.id for t in n.targets):
                     out += self.str_suffixes(n.value, fn, depth + 1)
-                if isinstance(n, ast.For) and isinstance(n.target, ast.Name) and n.target.id == e.id:
-                    out += self.dict_keys(n.iter, fn, depth + 1)
-                if isinstance(n, ast.For) and isinstance(n.target, ast.Tuple) and any(isinstance(t, ast.Name) and t.id == e.id for t in n.target.elts):
-                    out.append((False, ""))
+                if isinstance(n, (ast.For, ast.comprehension)):
+                    it = n.iter
+                    while isinstance(it, ast.Call) and isinstance(it.func, ast.Name) and it.func.id in ("sorted", "list", "tuple", "reversed", "iter") and it.args:
+                        it = it.args[0]                     # order / copy wrappers do not change the names
+                    if isinstance(n.target, ast.Name) and n.target.id == e.id:
+                        if isinstance(it, ast.Call) and isinstance(it.func, ast.Attribute) and it.func.attr == "keys" and not it.args:
+                            it = it.func.value              # for k in d.keys()
+                        out += self.dict_keys(it, fn, depth + 1)
+                    elif isinstance(n.target, ast.Tuple) and any(isinstance(t, ast.Name) and t.id == e.id for t in n.target.elts):
+                        first = n.target.elts[0]
+                        if isinstance(first, ast.Name) and first.id == e.id and len(n.target.elts) == 2 and isinstance(it, ast.Call) \
+                                and isinstance(it.func, ast.Attribute) and it.func.attr == "items" and not it.args:
+                            out += self.dict_keys(it.func.value, fn, depth + 1)       # for k, v in d.items()
+                        else:
+                            out.append((False, ""))
             return out or [(False, "?")]
         if isinstance(e, ast.Attribute) and e.attr == "name":
             return [(False, "<listed name>")]
@@ -419,10 +499,14 @@ class Plugin:
         def cleanup_pattern(g):
             pats = []
             for n in ast.walk(g):
-                if isinstance(n, ast.For) and isinstance(n.iter, ast.Call) and isinstance(n.iter.func, ast.Attribute) and n.iter.func.attr in ("glob", "rglob") \
-                        and n.iter.args and isinstance(n.iter.args[0], ast.Constant):
-                    if self.listing(n.iter)[0] == "SDeleteOnly":
-                        pats.append(n.iter.args[0].value)
+                if isinstance(n, (ast.For, ast.comprehension)):
+                    it = n.iter
+                    while isinstance(it, ast.Call) and isinstance(it.func, ast.Name) and it.func.id in ("sorted", "list", "tuple", "iter") and it.args:
+                        it = it.args[0]
+                    if isinstance(it, ast.Call) and isinstance(it.func, ast.Attribute) and it.func.attr in ("glob", "rglob") \
+                            and it.args and isinstance(it.args[0], ast.Constant):
+                        if self.listing(it)[0] == "SDeleteOnly":
+                            pats.append(it.args[0].value)
             return pats
 
         def visit_fn(g, depth):
@@ -432,13 +516,21 @@ class Plugin:
                     if nm in ("write_text", "write_bytes") and isinstance(n.func, ast.Attribute):
                         recv = n.func.value
                         name_e = None
-                        if isinstance(recv, ast.BinOp) and isinstance(recv.op, ast.Div):
-                            name_e = recv.right
-                        elif isinstance(recv, ast.Name):
+                        def path_name(pe):
+                            """the file-name part of a path expression:  d / name,  d.joinpath(name),  Path(d, name)"""
+                            if isinstance(pe, ast.BinOp) and isinstance(pe.op, ast.Div):
+                                return pe.right
+                            if isinstance(pe, ast.Call) and pe.args and not pe.keywords:
+                                last = pe.func.attr if isinstance(pe.func, ast.Attribute) else (pe.func.id if isinstance(pe.func, ast.Name) else None)
+                                if last == "joinpath" or (last in ("Path", "PurePath", "join") and len(pe.args) >= 2):
+                                    return pe.args[-1]
+                            return None
+                        name_e = path_name(recv)
+                        if name_e is None and isinstance(recv, ast.Name):
                             for m in ast.walk(g):
-                                if isinstance(m, ast.Assign) and any(isinstance(t, ast.Name) and t.id == recv.id for t in m.targets) \
-                                        and isinstance(m.value, ast.BinOp) and isinstance(m.value.op, ast.Div):
-                                    name_e = m.value.right
+                                if isinstance(m, (ast.Assign, ast.AnnAssign)) and m.value is not None \
+                                        and any(isinstance(t, ast.Name) and t.id == recv.id for t in (m.targets if isinstance(m, ast.Assign) else [m.target])):
+                                    name_e = path_name(m.value) or name_e
                         sfx = self.str_suffixes(name_e, g) if name_e is not None else [(True, "<fixed path %s>" % ast.unparse(recv))] if isinstance(recv, ast.Name) else [(False, "?")]
                         events.append((n.lineno if g is fn else call_line[0], "write", sfx))
                     elif nm in self.funcs and depth < 2 and g is fn:
@@ -478,6 +570,14 @@ def main(out_v, out_json):
         p = Plugin(name)
         sites += p.scan()
         plugs.append(p.ownership())
+    # the loader / entry point (model.py, __main__.py): same scan of sets, random values and listings, no ownership
+    sites += Plugin("generator", os.path.join(REPO, "generator")).scan()
+    # module-level state of all of generator/: output must not depend on what the process generated before
+    try:
+        msites, minfo = emit_modstate.analyse(REPO)
+    except RecursionError as e:
+        raise Reject("module-state analysis: recursion limit (%s)" % e)
+    sites += msites
     sites.sort(key=lambda s: (s["file"], s["line"], s["what"]))
     v = ["(* generated by lib/x_emit.py from generator/plugins — do not edit *)",
          "From Coq Require Import List String. Import ListNotations.", "From LSP Require Import Emit.", "Open Scope string_scope.", ""]
@@ -491,10 +591,11 @@ def main(out_v, out_json):
         "mkPlugin %s %s %s %s" % (q(pl["name"]), str(pl["cleanup_first"]).lower(), str(pl["fixed_names"]).lower(), str(pl["writes_owned"]).lower()) for pl in plugs))
     v.append("")
     write_if_changed(out_v, "\n".join(v))
-    write_if_changed(out_json, json.dumps({"sites": sites, "plugins": plugs}, indent=1, sort_keys=True) + "\n")
-    bad = [s for s in sites if s["class"] == "SExposed"]
-    print("x_emit: %d sites (%s), %d exposed; plugins: %s" % (
+    write_if_changed(out_json, json.dumps({"sites": sites, "plugins": plugs, "modstate": minfo}, indent=1, sort_keys=True) + "\n")
+    bad = [s for s in sites if s["class"] in ("SExposed", "SModState")]
+    print("x_emit: %d sites (%s), %d not covered; %d module-level names immutable and never rebound in %d modules; plugins: %s" % (
         len(sites), ", ".join("%s %d" % (k, sum(1 for s in sites if s["class"] == k)) for k in sorted({s["class"] for s in sites})), len(bad),
+        minfo["immutable_module_names"], len(minfo["modules"]),
         ", ".join("%s[cleanup=%s fixed=%s owned=%s]" % (p["name"], p["cleanup_first"], p["fixed_names"], p["writes_owned"]) for p in plugs)))
 
 
